@@ -319,6 +319,10 @@ theorem dropVec_fail (P : Held → Prop) (c : Cfg) (h0 : Held) (w : Nat → Bool
 
 
 
+theorem effective_ioFails (c : Cfg) (t : Term) : (effective c t).ioFails = c.ioFails := by
+  unfold effective
+  cases t <;> simp only <;> (repeat' split) <;> rfl
+
 theorem effective_n (c : Cfg) (t : Term) : (effective c t).n = c.n := by
   cases t <;> simp [effective] <;> (repeat' split) <;> rfl
 
@@ -533,6 +537,9 @@ def tail (c : Cfg) (t : Term) : List Act :=
   | .streamStderr => [.ret true, .user] ++ dropVec c [] noneWaited c.n
   | .streamStdin => [.ret true, .user, .close ⟨1, .w⟩] ++ dropVec c [⟨1, .w⟩] noneWaited c.n
   | .capture =>
+    if c.ioFails then
+      [.io] ++ dropVec c (commEnds c t) noneWaited c.n ++ (commEnds c t).map Act.close ++ [.ret false]
+    else
     [.io] ++ (commWriteEnds c).map Act.close ++ [.waitRet last] ++
       dropVec c (commEnds c t) (fun j => j = last) c.n ++ (commReadEnds c t).map Act.close ++ [.ret true]
   | .communicate =>
@@ -572,8 +579,9 @@ theorem spawnOf_dropVec (c : Cfg) (tk : List End) (w : Nat → Bool) (k : Nat) :
     split <;> simp [spawnOf]
 
 theorem spawnOf_tail (c : Cfg) (t : Term) : (tail c t).filterMap spawnOf = [] := by
-  cases t <;> simp only [tail, List.filterMap_append, spawnOf_dropVec, spawnOf_closes, List.filterMap_cons,
-    List.filterMap_nil, spawnOf, List.append_nil, List.nil_append]
+  cases t <;> (try (by_cases hio : c.ioFails = true)) <;>
+    simp only [tail, *, Bool.false_eq_true, if_true, if_false, List.filterMap_append, spawnOf_dropVec, spawnOf_closes, List.filterMap_cons,
+      List.filterMap_nil, spawnOf, List.append_nil, List.nil_append]
 
 /-- the commands are started in order, each with the attachments `att0/att1/att2` -/
 theorem spawnOf_runEff (c : Cfg) (t : Term) (h : AllStart c) :
@@ -987,17 +995,30 @@ theorem ok_final_empty (c : Cfg) (t : Term) (h : AllStart c) (hn : 0 < c.n) :
       · simp [closedBy_of_mem c [⟨1, .w⟩] c.n 0 _ hn (mem_popenEnds_err c hE) (by simp <;> omega)]
       · simp [capPipe] at hE
   | capture =>
-    simp only [tail, heldAfter_append, heldAfter_closes, heldAfter_cons, heldAfter_nil, stepHeld, dropVec_held]
-    funext e
-    show _ = none
-    cases hHe : H e with
-    | none => simp [hHe]
-    | some b =>
-      rcases hcases e (by simp [hHe]) with ⟨rfl, hi⟩ | ⟨rfl, ho⟩ | ⟨rfl, hE⟩
-      · simp [commWriteEnds, hi]
-      · simp [commReadEnds, ho]
-      · have : (capPipe c .capture || hasErrPipe c) = true := by rcases hE with hE | hE <;> simp [hE]
-        simp [commReadEnds, this]
+    by_cases hio : c.ioFails = true
+    · -- the exchange failed: everything the Communicator still held is closed when it is dropped, after the Popens
+      simp only [tail, hio, if_true, heldAfter_append, heldAfter_closes, heldAfter_cons, heldAfter_nil, stepHeld, dropVec_held]
+      funext e
+      show _ = none
+      cases hHe : H e with
+      | none => simp [hHe]
+      | some b =>
+        rcases hcases e (by simp [hHe]) with ⟨rfl, hi⟩ | ⟨rfl, ho⟩ | ⟨rfl, hE⟩
+        · simp [commEnds, commWriteEnds, hi]
+        · simp [commEnds, commReadEnds, ho]
+        · have : (capPipe c .capture || hasErrPipe c) = true := by rcases hE with hE | hE <;> simp [hE]
+          simp [commEnds, commReadEnds, this]
+    · simp only [tail, hio, Bool.false_eq_true, if_false, heldAfter_append, heldAfter_closes, heldAfter_cons, heldAfter_nil, stepHeld, dropVec_held]
+      funext e
+      show _ = none
+      cases hHe : H e with
+      | none => simp [hHe]
+      | some b =>
+        rcases hcases e (by simp [hHe]) with ⟨rfl, hi⟩ | ⟨rfl, ho⟩ | ⟨rfl, hE⟩
+        · simp [commWriteEnds, hi]
+        · simp [commReadEnds, ho]
+        · have : (capPipe c .capture || hasErrPipe c) = true := by rcases hE with hE | hE <;> simp [hE]
+          simp [commReadEnds, this]
   | communicate =>
     simp only [tail, heldAfter_append, heldAfter_closes, heldAfter_cons, heldAfter_nil, stepHeld, dropVec_held]
     funext e
